@@ -93,7 +93,8 @@ class PreHandshakeWorld(World):
             "time (virtual clock)", "raw scripted peers"]
     PROBES = ["m1_not_connect", "m1_unknown_serializer", "m1_unknown_object", "m1_bad_shape", "validator_raised", "validator_odd_return",
               "pipelined_after_fail", "pipelined_after_ok", "connectfail_seen", "connectok_seen", "legit_ok", "m1_truncated",
-              "m1_mutated", "multiplex", "thread", "validator_bare_exception", "unregister_raced", "garbage_bad_prefix", "m1_stalled_until_commtimeout"]
+              "m1_mutated", "multiplex", "thread", "validator_bare_exception", "unregister_raced", "garbage_bad_prefix", "m1_stalled_until_commtimeout",
+              "m1_connect_with_bad_body", "m1_not_connect_body_incomplete"]
     RULE = ("plan = (server type, COMMTIMEOUT, validator behaviour, 1-3 raw peers each with first message spec + 0-3 pipelined message "
             "specs sent in one write or several, optional legitimate client); distinct = distinct interleaving digest; "
             "non-trivial = at least one peer's first message was not a pristine accepted CONNECT")
@@ -356,6 +357,10 @@ class PreHandshakeWorld(World):
             if first is None and klass.startswith("fail") and self._verdict_reachable(m1, r) and not stall_possible:
                 # the daemon could decide, the peer stayed connected and read until EOF/timeout: it must have been told
                 ctx.violate("no-connectfail", klass, "peer %d: %s; the connection ended (%s) without any CONNECTFAIL" % (pi, klass, r["end"]))
+            if klass == "fail:payload":
+                ctx.probe("m1_connect_with_bad_body")
+            if klass == "fail:not-connect" and m1.get("trunc") is not None:
+                ctx.probe("m1_not_connect_body_incomplete")
             if klass == "fail:bad-prefix":
                 ctx.probe("garbage_bad_prefix")
             if klass == "fail:not-connect":
@@ -396,7 +401,16 @@ class PreHandshakeWorld(World):
                 return "fail:bad-prefix"
             return "unknown"
         if m1.get("trunc") is not None:
+            if not muts and m1["base"] in DEFINITE_FAIL_BASES:
+                full = build_msg(dict(m1, trunc=None))
+                if 40 <= int(m1["trunc"] * len(full)) < len(full):
+                    # the whole header of a message that is no connect request has arrived: the daemon can and must refuse now,
+                    # it has no business waiting for the rest of the body
+                    return "fail:not-connect"
             return "trunc" if not muts and m1["base"] != "garbage" and m1["trunc"] < 0.999 else "unknown"
+        if m1["base"] == "connect" and len(muts) == 1 and muts[0]["f"] == "payload":
+            # a connect request with a well-formed header whose body is not a handshake (empty, garbage, wrong shape ...)
+            return "fail:payload"
         if any(m["f"] in ("tag", "version", "magic") for m in muts) and len(muts) == 1:
             return "fail:bad-header"
         if m1["base"] == "connect" and len(muts) == 1 and muts[0]["f"] == "ser" and muts[0]["v"] not in (1, 2, 3, 4):
